@@ -41,6 +41,12 @@ pub fn run(ctx: &Ctx) -> i32 {
     let pool = lens::pool(dense_n, t.pick(1 << 16, 1 << 20));
     let pool_sel = lens::thin(&pool, t.pick(64, 500));
     l.extend(pool_sel.iter().map(|x| x.0));
+    let big: Vec<usize> = lens::beyond_u16(t == crate::framework::Tier::Thorough).iter().map(|x| x.0).collect();
+    for b in &big {
+        if !l.contains(b) {
+            l.push(*b);
+        }
+    }
     let cfg = FloatCfg {
         prop: "C02",
         planners: PK::ALL.to_vec(),
@@ -58,8 +64,9 @@ pub fn run(ctx: &Ctx) -> i32 {
     };
     let mut rep = floatlayer::run(&cfg);
     rep.set("pool_lengths", Json::Arr(pool_sel.iter().map(|x| Json::Int(x.0 as i64)).collect()));
+    rep.set("lengths_beyond_2^16", Json::Arr(big.iter().map(|x| Json::Int(*x as i64)).collect()));
     rep.rule = format!(
-        "planners {{auto,scalar,sse,avx}} x {{f32,f64}} x {{fwd,inv}} x 4 entry points x every n in 0..={dn}: STRUCT alphabet (zero, ones, alternating, on-grid tones f in {{1,n/2,n-1}}, off-grid tone, spikes, 8-tone dense, ramp, wide dynamic range 2^+-30 / 2^+-200, three dense pseudo-random distributions) against an O(n^2) double-double reference, complete impulse basis for n <= {fb} and 22 positions x2 above; plus {pc} pool lengths up to {ph} with the closed-form members of the alphabet; oracle: relative L2 error <= 16*eps*log2(2n) (+ eps where the reference is the closed form of the unrounded input). Non-trivial: n >= 2 and non-zero input; distinct (config, n, entry, input) tuples are counted.",
+        "planners {{auto,scalar,sse,avx}} x {{f32,f64}} x {{fwd,inv}} x 4 entry points x every n in 0..={dn}: STRUCT alphabet (zero, ones, alternating, on-grid tones f in {{1,n/2,n-1}}, off-grid tone, spikes, 8-tone dense, ramp, wide dynamic range 2^+-30 / 2^+-200, three dense pseudo-random distributions) against an O(n^2) double-double reference, complete impulse basis for n <= {fb} and 22 positions x2 above; plus {pc} pool lengths up to {ph} with the closed-form members of the alphabet, plus one length of every plan class just above 2^16 and up to ~2^20 (lengths_beyond_2^16); oracle: relative L2 error <= 16*eps*log2(2n) (+ eps where the reference is the closed form of the unrounded input). Non-trivial: n >= 2 and non-zero input; distinct (config, n, entry, input) tuples are counted.",
         dn = dense_n,
         fb = cfg.full_basis_max,
         pc = pool_sel.len(),
